@@ -38,7 +38,8 @@ TRUSTED = [
 ASSUMPTIONS = ["wall-clock limit 20-30 s per case stands in for 'loops forever'"]
 
 def _errored(case, mout):
-    imp = str(case.get("impl", ""))
-    return imp.startswith("PANIC: ") and imp.rstrip().endswith("Reader errored")
+    # identified by the circumstance and the place the harness established (an accessor of a message reader called after a
+    # read that returned Err; panic raised under src/composed/message/), never by the wording of the panic
+    return str(case.get("impl", "")).startswith("PANIC-AFTER-READ-ERROR: ")
 
 KNOWN = {"accessor-after-read-error-panics": _errored}
